@@ -16,6 +16,7 @@ import (
 	"strings"
 	"sync"
 	"testing"
+	"time"
 )
 
 // ---------- PRNG: every random choice derives from VERIF_SEED ----------
@@ -349,3 +350,7 @@ func ReplayInput() map[string]string {
 	}
 	return r.Detail
 }
+
+// Micros is the time in microseconds since the Unix epoch, for every time a GeneralizedTime can carry
+// (UnixNano overflows after the year 2262).
+func Micros(t time.Time) int64 { return t.Unix()*1000000 + int64(t.Nanosecond()/1000) }
